@@ -309,7 +309,7 @@ fn minimise(
 ) -> (Value, Violation, u64, u64) {
     let t0 = Instant::now();
     let mut steps = 0u64;
-    let isolated = isolated || check.dual_mode() || history.is_some();
+    let isolated = isolated || check.dual_mode() || history.is_some() || check.address_space_limit_mib().is_some();
     let eval = |s: &Value| -> (Vec<Violation>, u64) {
         if isolated {
             eval_isolated_after(check, s, history, watchdog.saturating_mul(1 + history.map_or(0, |h| h.indices.len() as u32)))
@@ -454,6 +454,23 @@ fn known_open<'a>(known: &'a [KnownFinding], id: &str, v: &Violation) -> Option<
             && k.signature == v.signature
             && k.invariant.as_ref().map_or(true, |i| *i == v.invariant)
     })
+}
+
+extern "C" {
+    fn setrlimit(resource: i32, rlim: *const [u64; 2]) -> i32;
+}
+
+/// Apply the check's address-space limit to this process (see `Check::address_space_limit_mib`).
+fn apply_address_space_limit(check: &dyn Check) {
+    if let Some(mib) = check.address_space_limit_mib() {
+        const RLIMIT_AS: i32 = 9; // Linux
+        let lim = [mib << 20, mib << 20];
+        // SAFETY: plain libc call with a pointer to two u64 (struct rlimit on 64-bit Linux)
+        if unsafe { setrlimit(RLIMIT_AS, &lim) } != 0 {
+            eprintln!("harness error: setrlimit(RLIMIT_AS) failed");
+            std::process::exit(2);
+        }
+    }
 }
 
 fn wal_index(path: &Path) -> Option<u64> {
@@ -813,7 +830,7 @@ fn replay_main(checks: &[&'static dyn Check], path: &Path) -> i32 {
     };
     let scenario = v["scenario"].clone();
     let history: Option<History> = serde_json::from_value(v["history"].clone()).ok().flatten();
-    let isolated = v["isolated"].as_bool().unwrap_or(false) || check.dual_mode() || history.is_some();
+    let isolated = v["isolated"].as_bool().unwrap_or(false) || check.dual_mode() || history.is_some() || check.address_space_limit_mib().is_some();
     let (viols, h) = if isolated {
         let base = std::env::var("VERIF_WATCHDOG_S").ok().and_then(|s| s.parse().ok()).unwrap_or_else(|| check.watchdog_s(v["tier"].as_str().and_then(Tier::parse).unwrap_or(Tier::Quick)));
         let steps = 1 + history.as_ref().map_or(0, |h| h.indices.len() as u64);
@@ -842,6 +859,7 @@ fn exec_main(checks: &[&'static dyn Check], path: &Path) -> i32 {
     let v: Value = serde_json::from_slice(&std::fs::read(path).expect("read")).expect("json");
     let id = v["property"].as_str().unwrap_or("").to_string();
     let check = *checks.iter().find(|c| c.id() == id).expect("property");
+    apply_address_space_limit(check);
     let scenario = v["scenario"].clone();
     let history: Option<History> = serde_json::from_value(v["history"].clone()).ok().flatten();
     let (viols, h) = big_stack(move || {
@@ -934,6 +952,7 @@ pub fn main_entry(checks: &[&'static dyn Check]) -> i32 {
             let shard: u64 = args[5].parse().unwrap();
             let nshards: u64 = args[6].parse().unwrap();
             let outdir = PathBuf::from(&args[7]);
+            apply_address_space_limit(check);
             big_stack(move || worker_main(check, tier, seed, shard, nshards, outdir))
         }
         "replay" => match args.get(2) {
